@@ -64,41 +64,42 @@ Proof. intros H. rewrite nth_error_app1; [exact H | apply nth_error_Some; congru
 Lemma nth_error_app_new {A} (l : list A) x : nth_error (l ++ [x]) (length l) = Some x.
 Proof. rewrite nth_error_app2 by lia. rewrite Nat.sub_diag. reflexivity. Qed.
 
-(* the world with the two cells of a new user variable *)
-Definition world_addR (W0 : world) (c : nat) (p : positive) : world :=
-  mkWorld (fun c' p' => w_R W0 c' p' \/ (c' = c /\ p' = p)) (w_F W0) (w_D W0) (w_P W0) (w_pc W0).
+(* the world with the two cells of a new user variable (flag true), or of a function-valued constant that is being
+   defined (flag false) *)
+Definition world_addR (W0 : world) (c : nat) (p : positive) (b0 : bool) : world :=
+  mkWorld (fun c' p' b' => w_R W0 c' p' b' \/ (c' = c /\ p' = p /\ b' = b0)) (w_F W0) (w_D W0) (w_P W0) (w_pc W0).
 
-Lemma wsub_addR W0 c p : wsub W0 (world_addR W0 c p).
+Lemma wsub_addR W0 c p b0 : wsub W0 (world_addR W0 c p b0).
 Proof. unfold wsub, world_addR. cbn. repeat split; auto. Qed.
 
 (* the world invariant when a new user variable is defined on both sides (scope and environments: later) *)
-Lemma winv_addR fl0 W0 sc e st E stL x v :
-  winv pv sv bound u fl0 W0 sc e st E stL -> wfenv E stL -> vrel x v ->
-  winv pv sv bound u fl0 (world_addR W0 (length (SyltSem.cells st)) (s_ncell stL)) sc e (s_alloc st x) E (snd (alloc_cell stL v)).
+Lemma winv_addR fl0 W0 sc e st E stL x v (b0 : bool) :
+  winv pv sv bound u fl0 W0 sc e st E stL -> wfenv E stL -> (if b0 then vrel x v else True) ->
+  winv pv sv bound u fl0 (world_addR W0 (length (SyltSem.cells st)) (s_ncell stL) b0) sc e (s_alloc st x) E (snd (alloc_cell stL v)).
 Proof.
   intros Hw Hwf Hxv.
   pose proof Hw as [H1 H2 H3 H4 H5 H6 H7 Hff H8 H9 H10 Hall Hlock H11 H13 H14].
-  assert (HRc : forall c p, w_R W0 c p -> (c < length (SyltSem.cells st))%nat /\ (p < s_ncell stL)%positive).
-  { intros c p Hr. destruct (H1 c p Hr) as (y & A & _ & B). split; [apply nth_error_Some; congruence | exact B]. }
+  assert (HRc : forall c p b, w_R W0 c p b -> (c < length (SyltSem.cells st))%nat /\ (p < s_ncell stL)%positive).
+  { intros c p b Hr. destruct (H1 c p b Hr) as (y & A & _ & B). split; [apply nth_error_Some; congruence | exact B]. }
   assert (HFc : forall c p d, w_F W0 c p d -> (c < length (SyltSem.cells st))%nat /\ (p < s_ncell stL)%positive).
   { intros c p d Hf. destruct (H6 c p d Hf) as (A & _ & B & _). split; [apply nth_error_Some; congruence | exact B]. }
   constructor; cbn [world_addR w_R w_F w_D w_P w_pc].
-  - intros c p [Hr|[-> ->]].
-    + destruct (H1 c p Hr) as (y & A & B & C). exists y. split; [apply nth_error_app_old; exact A|].
+  - intros c p b [Hr|(-> & -> & ->)].
+    + destruct (H1 c p b Hr) as (y & A & B & C). exists y. split; [apply nth_error_app_old; exact A|].
       split; [rewrite get_cell_alloc_old; assumption | cbn; lia].
     + exists x. split; [apply nth_error_app_new|]. split; [rewrite get_cell_alloc_new; exact Hxv | cbn; lia].
-  - intros c p p' [Hr|[-> ->]] [Hr'|[Hc' ->]]; try reflexivity.
+  - intros c p p' b b' [Hr|(-> & -> & ->)] [Hr'|(Hc' & -> & ->)]; try (split; reflexivity).
     + eapply H2; eassumption.
-    + subst c. destruct (HRc _ _ Hr). lia.
-    + destruct (HRc _ _ Hr'). lia.
-  - intros c c' p [Hr|[-> ->]] [Hr'|[-> Hp']]; try reflexivity.
+    + subst c. destruct (HRc _ _ _ Hr). lia.
+    + destruct (HRc _ _ _ Hr'). lia.
+  - intros c c' p b b' [Hr|(-> & -> & ->)] [Hr'|(-> & Hp' & ->)]; try reflexivity.
     + eapply H3; eassumption.
-    + subst p. destruct (HRc _ _ Hr). lia.
-    + destruct (HRc _ _ Hr'). lia.
-  - intros c p [Hr|[-> ->]].
-    + apply H4. exact Hr.
+    + subst p. destruct (HRc _ _ _ Hr). lia.
+    + destruct (HRc _ _ _ Hr'). lia.
+  - intros c p b [Hr|(-> & -> & ->)].
+    + eapply H4. exact Hr.
     + split; [intros p' d Hf; destruct (HFc _ _ _ Hf); lia | intros c' d Hf; destruct (HFc _ _ _ Hf); lia].
-  - intros c p lv [Hr|[-> ->]]; [exact (H5 c p lv Hr)|]. intros Hp. destruct (H8 _ _ Hp). lia.
+  - intros c p b lv [Hr|(-> & -> & ->)]; [exact (H5 c p b lv Hr)|]. intros Hp. destruct (H8 _ _ Hp). lia.
   - intros c p d Hf. destruct (H6 c p d Hf) as (A & B & C & D).
     split; [apply nth_error_app_old; exact A|]. split; [rewrite get_cell_alloc_old; assumption|]. split; [cbn; lia | exact D].
   - exact H7.
@@ -110,13 +111,13 @@ Proof.
     split; [exact F|]. split; [exact G|]. split; [exact G'|].
     split; [intros g Hg; destruct (Hsc g Hg) as (c & p & X & Y & Z); exists c, p; auto|]. split; [exact Hfl|].
     intros t p Hbt Hq. destruct (Htm t p Hbt Hq) as [Hn1 Hn2]. split; [|exact Hn2].
-    intros c [Hr|[-> ->]]; [exact (Hn1 c Hr)|]. specialize (D _ _ Hq). lia.
+    intros c b [Hr|(-> & -> & ->)]; [exact (Hn1 c b Hr)|]. specialize (D _ _ Hq). lia.
   - exact Hall.
   - exact Hlock.
   - intros w Hin. destruct (H11 w Hin) as (c & p & X & Y & Z). exists c, p. auto.
   - exact H13.
   - intros t p Hbt Hq. destruct (H14 t p Hbt Hq) as [Hn1 Hn2]. split; [|exact Hn2].
-    intros c [Hr|[-> ->]]; [exact (Hn1 c Hr)|]. 
+    intros c b [Hr|(-> & -> & ->)]; [exact (Hn1 c b Hr)|].
     pose proof (wf_alloc _ _ Hwf _ _ Hq). lia.
 Qed.
 
@@ -129,13 +130,13 @@ Proof.
   intros (Hfs & W1 & Hs1 & [Hb Hfb Hp Hpb HpE HpG Hwf Ht Hli HW]) Hfresh Hxv.
   destruct (fresh_id_inv _ _ Hfresh) as (Hnin & Hnpv & Hnsv & Hvb). pose proof (fresh_id_fl _ _ Hfresh) as Hnfl.
   split.
-  { intros f ar Hin. destruct (Hfs f ar Hin) as (c & p & d & A & B & C). exists c, p, d.
+  { intros f ar Hin HK. destruct (Hfs f ar Hin HK) as (c & p & d & A & B & C). exists c, p, d.
     assert (Hne : f <> var).
     { intros ->. apply Hnfl. unfold fnames. change var with (fst (var, ar)). apply in_map. exact Hin. }
     cbn [SyltSem.lookup]. destruct (N.eqb_spec var f); [congruence|].
     split; [exact A | split; [rewrite sget_sset_var by exact Hne; exact B | exact C]]. }
-  exists (world_addR W1 (length (SyltSem.cells st)) (s_ncell stL)). split; [eapply wsub_trans; [exact Hs1 | apply wsub_addR]|].
-  pose proof (winv_addR fl W1 sc e st E stL x v HW Hwf Hxv) as HW2.
+  exists (world_addR W1 (length (SyltSem.cells st)) (s_ncell stL) true). split; [eapply wsub_trans; [exact Hs1 | apply wsub_addR]|].
+  pose proof (winv_addR fl W1 sc e st E stL x v true HW Hwf Hxv) as HW2.
   constructor.
   - intros w [<-|Hin]; [split; assumption | apply Hb; exact Hin].
   - exact Hfb.
@@ -149,7 +150,7 @@ Proof.
   - apply (winv_env pv sv bound u fl _ sc e _ E _ fl (var :: sc) _ _ HW2).
     + intros w [<-|Hin].
       * exists (length (SyltSem.cells st)), (s_ncell stL). cbn [SyltSem.lookup]. rewrite N.eqb_refl.
-        split; [reflexivity | split; [apply sget_sset_same | right; split; reflexivity]].
+        split; [reflexivity | split; [apply sget_sset_same | right; split; [reflexivity | split; reflexivity]]].
       * destruct (wi_sc _ _ _ _ _ _ _ _ _ _ _ HW w Hin) as (c & p & A & B & C). exists c, p.
         assert (Hne : w <> var) by (intros ->; contradiction).
         cbn [SyltSem.lookup]. destruct (N.eqb_spec var w); [congruence|].
@@ -208,7 +209,7 @@ Lemma rel_assign_user sc e st E stL var cc p x v :
 Proof.
   intros (Hfs & W1 & Hs1 & [Hb Hfb Hp Hpb HpE HpG Hwf Ht Hli HW]) Hin Hlk Hq Hxv.
   destruct (wi_sc _ _ _ _ _ _ _ _ _ _ _ HW var Hin) as (c0 & p0 & A & B & HR). rewrite Hlk in A. inversion A; subst c0. rewrite Hq in B. inversion B; subst p0.
-  destruct (wi_R _ _ _ _ _ _ _ _ _ _ _ HW cc p HR) as (x0 & Hx0 & _ & Hplt).
+  destruct (wi_R _ _ _ _ _ _ _ _ _ _ _ HW cc p true HR) as (x0 & Hx0 & _ & Hplt).
   assert (Hccl : (cc < length (SyltSem.cells st))%nat) by (apply nth_error_Some; congruence).
   split; [exact Hfs|]. exists W1. split; [exact Hs1|]. constructor.
   - exact Hb.
@@ -225,12 +226,12 @@ Proof.
     + intros c q Hr. destruct (Nat.eq_dec c cc) as [->|Hne].
       * assert (q = p) by (eapply (wi_Rfun _ _ _ _ _ _ _ _ _ _ _ HW); eassumption). subst q.
         exists x. split; [cbn [s_write SyltSem.cells]; apply nth_set_nth_same; exact Hccl | rewrite get_cell_set_same; exact Hxv].
-      * destruct (wi_R _ _ _ _ _ _ _ _ _ _ _ HW c q Hr) as (y & Hy & Hvy & _). exists y.
+      * destruct (wi_R _ _ _ _ _ _ _ _ _ _ _ HW c q true Hr) as (y & Hy & Hvy & _). exists y.
         split; [cbn [s_write SyltSem.cells]; rewrite nth_set_nth_other; [exact Hy | congruence]|].
         rewrite get_cell_set_other; [exact Hvy|]. intros ->. apply Hne. eapply (wi_Rinj _ _ _ _ _ _ _ _ _ _ _ HW); eassumption.
     + reflexivity.
-    + intros c q d Hf. apply get_cell_set_other. intros ->. destruct (wi_RF _ _ _ _ _ _ _ _ _ _ _ HW cc p HR) as [_ Hn]. exact (Hn c d Hf).
-    + intros q lv Hpq. apply get_cell_set_other. intros ->. exact (wi_RP _ _ _ _ _ _ _ _ _ _ _ HW cc p lv HR Hpq).
+    + intros c q d Hf. apply get_cell_set_other. intros ->. destruct (wi_RF _ _ _ _ _ _ _ _ _ _ _ HW cc p true HR) as [_ Hn]. exact (Hn c d Hf).
+    + intros q lv Hpq. apply get_cell_set_other. intros ->. exact (wi_RP _ _ _ _ _ _ _ _ _ _ _ HW cc p true lv HR Hpq).
     + cbn; lia.
     + reflexivity.
     + reflexivity.
